@@ -98,6 +98,19 @@ impl ProofOfSignatureKnowledge for PokSignatureProof {
             return Err(Error::General("Invalid public key"));
         }
 
+        // responses for t and m_tick plus one per hidden message; the commitment hashed
+        // into the challenge pairs points and responses positionally
+        let known = revealed_messages
+            .iter()
+            .map(|(idx, _)| *idx)
+            .collect::<BTreeSet<_>>();
+        let hidden = (0..public_key.y.len())
+            .filter(|i| !known.contains(i))
+            .count();
+        if self.proof.len() != hidden + 2 {
+            return Err(Error::General("Invalid proof - wrong number of responses"));
+        }
+
         let mut points = Vec::new();
         let mut scalars = Vec::new();
 
